@@ -536,7 +536,7 @@ func NewRouterEnv(spec string) (*RouterEnv, error) {
 				sc.Http.Path = "/dns-query" // requests for any other path: 404
 			}
 		}
-		if k == "udp" && parts["D"] != "" {
+		if (k == "udp" || k == "udpmr") && parts["D"] != "" {
 			sc.Udp.Threads, _ = strconv.Atoi(parts["D"])
 		}
 		if k == "tls" || k == "https" || k == "quic" {
